@@ -189,7 +189,7 @@ fn check_bool_numeric(ctx: &mut Ctx, lit: &str) {
 }
 
 pub fn run(cfg: &Cfg, rep: &mut Report) {
-    let n = cfg.n(100, 7_500_000, 150_000_000);
+    let n = cfg.n(100, 7_500_000, 800_000_000);
     run_cases(cfg, "floats", n, rep, |rng, ctx| {
         let lit = float_literal(rng);
         ctx.nontrivial(hash_str(&lit));
@@ -206,7 +206,7 @@ pub fn run(cfg: &Cfg, rep: &mut Report) {
             }
         }
     });
-    let n = cfg.n(50, 1_500_000, 30_000_000);
+    let n = cfg.n(50, 1_500_000, 240_000_000);
     run_cases(cfg, "bool", n, rep, |rng, ctx| {
         let lit = match rng.usize(8) {
             0 => rng.pick(ZEROS).to_string(),
@@ -236,7 +236,7 @@ pub fn run(cfg: &Cfg, rep: &mut Report) {
         }
     });
     // float keywords
-    run_cases(cfg, "keywords", cfg.n(20, 300_000, 6_000_000), rep, |rng, ctx| {
+    run_cases(cfg, "keywords", cfg.n(20, 300_000, 60_000_000), rep, |rng, ctx| {
         #[derive(Clone, Copy, PartialEq, Debug)]
         enum K {
             Inf,
@@ -275,7 +275,7 @@ pub fn run(cfg: &Cfg, rep: &mut Report) {
         chk(ctx, "f32", f32::try_from(t).map(|v| v as f64), f32::MAX as f64, f32::MIN as f64);
     });
     // target x element-kind matrix
-    run_cases(cfg, "matrix", cfg.n(10, 200_000, 4_000_000), rep, |rng, ctx| {
+    run_cases(cfg, "matrix", cfg.n(10, 200_000, 40_000_000), rep, |rng, ctx| {
         let words: [&[u8]; 4] = [b"POTATO", b"ON", b"MAX", b"NAN"];
         let strs: [&[u8]; 4] = [b"12", b"abc", b"", b"\xff\xfe"];
         let w = *rng.pick(&words);
